@@ -140,10 +140,11 @@ structure Acc where
 /-- constructor -/
 def Acc.init (c : Cmd) : Acc := { canUpdateIfNewer := !(depsDisableUpdateIfNewer && c.hasDeps) }
 
-/-- `provideValue` -/
+/-- `provideValue` (a failed / skipped / missing input also clears `canUpdateIfNewer`: repair F43) -/
 def provide (a : Acc) (v : BuildValue) : Acc :=
   if !(okInputKinds.contains v.kind) then
-    { a with shouldSkip := true, hasMissingInput := a.hasMissingInput || v.kind == missingInputKind }
+    { a with shouldSkip := true, hasMissingInput := a.hasMissingInput || v.kind == missingInputKind,
+             canUpdateIfNewer := a.canUpdateIfNewer && !badInputDisablesUpdateIfNewer }
   else if v.outputInfo.isMissing then { a with canUpdateIfNewer := false }
   else if newestCmp.eval v.outputInfo.mtime a.newest then { a with newest := v.outputInfo.mtime }
   else a
@@ -216,6 +217,41 @@ def afterExecute (c : Cmd) (succeeded depsOk : Bool) (outsAfter : List FInfo) : 
   if !succeeded then (.failed, true)
   else if !depsOk then (.failed, true)
   else (computeResult c outsAfter, if forceIsNotRestat then !c.restat else c.restat)
+
+/-! ### the dependency list the engine records for a command rule
+
+`BuildEngine` appends one entry per input request (`mustFollow` ⇒ `orderOnly = true`) at the moment the requested rule
+has been scanned - so the requests appear as a permutation of the request order, which the harness compares as a
+multiset - then, when the task completes, its discovered dependencies (`orderOnly = false`) in the order discovered,
+without removing duplicates; on the next build a rule
+whose stored result is valid is re-run exactly when one of its NON-order-only dependencies was rebuilt with a changed
+value (lib/Core/BuildEngine.cpp, `processInputRequest` / `processFinishedTask` / the scan of `checkRule`). -/
+
+/-- one recorded dependency -/
+structure DepEntry (α : Type) where
+  key : α
+  orderOnly : Bool
+  deriving DecidableEq, Repr
+
+/-- the entries recorded for the requests of `start()` -/
+def requestDeps {α : Type} (ins : Inputs α) : List (DepEntry α) :=
+  (requests ins).map fun r => ⟨r.2, r.1 == .mustFollow⟩
+
+/-- `processDiscoveredDependencies` after a successful execution: the depfile's entries in file order, `none` = a path
+that `Manifest::normalize_path` rejects.  `extra` is whatever further condition the source puts between the
+normalisation and `ti.discoveredDependency(path)` (there is none when `discoveredUnconditional`). -/
+def discovered {α : Type} (c : Cmd) (entries : List (Option α)) (extra : α → Bool) : List (DepEntry α) :=
+  if c.hasDeps then
+    ((entries.filterMap id).filter fun p => discoveredUnconditional || extra p).map fun p => ⟨p, false⟩
+  else []
+
+/-- what the engine stores for a command that executed successfully -/
+def dependencyList {α : Type} (c : Cmd) (ins : Inputs α) (entries : List (Option α)) (extra : α → Bool) : List (DepEntry α) :=
+  requestDeps ins ++ discovered c entries extra
+
+/-- the engine's scan: some dependency that is not order-only changed -/
+def triggersRerun {α : Type} (deps : List (DepEntry α)) (changed : α → Bool) : Bool :=
+  deps.any fun d => !d.orderOnly && changed d.key
 
 /-! ### input rules and select rules -/
 
